@@ -128,15 +128,18 @@ pub fn streams(tier: &str) -> Vec<StreamGen> {
         let nl = list_count(reps.len(), maxlen);
         let r2 = reps.clone();
         let mk = move |i: u64| -> Option<Vec<Vec<u8>>> {
-            let d = digits(i, &[nl, 3, 4, 3]);
+            let d = digits(i, &[nl, 4, 4, 3]);
             let fields: Vec<FieldSpec> = list_at(reps.len(), maxlen, d[0]).into_iter().map(|k| reps[k]).collect();
-            if fields.iter().map(|f| f.len as usize).sum::<usize>() == 0 {
+            let rs = fields.iter().map(|f| f.len as usize).sum::<usize>();
+            if rs == 0 {
                 return None;
             }
-            let body = body_for(&fields, d[1] as usize + 1, d[2] as usize, None);
+            // 0 records: a body holding only padding (shorter than a record)
+            let pad = if d[1] == 0 { (d[2] as usize).min(rs - 1) } else { d[2] as usize };
+            let body = body_for(&fields, d[1] as usize, pad, None);
             Some(deliver(V9Set::Tpl(vec![V9Tpl { id: 256, fields }], 0), V9Set::Data(256, body), d[3]))
         };
-                v.push(stream_gen(&format!("v9-multi-field-lists<={}", maxlen), nl * 36, mk));
+                v.push(stream_gen(&format!("v9-multi-field-lists<={}", maxlen), nl * 48, mk));
         // single-deviation field values inside multi-field templates (lists of length <= 2)
         let reps = r2;
         let nl2 = list_count(reps.len(), 2);
@@ -223,6 +226,24 @@ pub fn streams(tier: &str) -> Vec<StreamGen> {
             }
         };
                 v.push(stream_gen("v9-two-templates-per-flowset", 2 * 3 * 3 * 4 * 4 * 3, move |i| Some(mk(i))));
+    }
+    // 5b. two options templates per flowset with data for both, every order and delivery
+    {
+        let mk = move |i: u64| -> Vec<Vec<u8>> {
+            let d = digits(i, &[2, 2, 3]);
+            let a = V9OptTpl { id: 400, scope: vec![fs(1, 4)], opts: vec![fs(34, 2), fs(36, 2)] };
+            let b = V9OptTpl { id: 401, scope: vec![fs(2, 2), fs(5, 1)], opts: vec![fs(82, 5)] };
+            let da = V9Set::Data(400, (0..8).map(|j| fill(3, j)).collect());
+            let db = V9Set::Data(401, (0..8).map(|j| fill(4, j)).chain(std::iter::repeat(0).take(d[1] as usize)).collect());
+            let t = V9Set::OptTpl(vec![a, b], 0);
+            let data = if d[0] == 0 { vec![da, db] } else { vec![db, da] };
+            match d[2] {
+                0 => vec![v9_packet(&V9Pkt::new(std::iter::once(t).chain(data).collect()))],
+                1 => vec![v9_packet(&V9Pkt::new(vec![t])), v9_packet(&V9Pkt::new(data))],
+                _ => vec![v9_packet(&V9Pkt::new(vec![t])), v9_packet(&V9Pkt::new(vec![data[0].clone()])), v9_packet(&V9Pkt::new(vec![data[1].clone()]))],
+            }
+        };
+        v.push(stream_gen("v9-two-options-templates-per-flowset", 12, move |i| Some(mk(i))));
     }
     // 6. header values: every header field x boundary values
     {
